@@ -164,6 +164,7 @@ fn rt_notif(ctx: &mut Ctx, rng: &mut Rng, m: &MNotif, v: &NotificationFile, size
         return;
     }
     ctx.obs_max("roundtrip_doc_bytes_notification", xml.len() as u64);
+    short_sink_check(ctx, rng, "notification", &xml, |w| v.write_xml(w));
     let plan = reader_plan(rng, xml.len());
     let limited = match rng.below(4) {
         0 => Some(m.deltas.len()),
@@ -215,6 +216,7 @@ fn rt_snap(ctx: &mut Ctx, rng: &mut Rng, m: &MSnap, v: &Snapshot, size: &str) {
         return;
     }
     ctx.obs_max("roundtrip_doc_bytes_snapshot", xml.len() as u64);
+    short_sink_check(ctx, rng, "snapshot", &xml, |w| v.write_xml(w));
     let plan = reader_plan(rng, xml.len());
     let detail = || json!({"xml_head": head(&xml), "xml_len": xml.len(), "elements": m.elements.len(), "reader": format!("{:?}", plan),
                            "data_lens": m.elements.iter().take(40).map(|e| e.1.len()).collect::<Vec<_>>()});
@@ -293,6 +295,7 @@ fn rt_delta(ctx: &mut Ctx, rng: &mut Rng, m: &MDelta, v: &Delta, size: &str) {
         return;
     }
     ctx.obs_max("roundtrip_doc_bytes_delta", xml.len() as u64);
+    short_sink_check(ctx, rng, "delta", &xml, |w| v.write_xml(w));
     let plan = reader_plan(rng, xml.len());
     let order: String = m.elements.iter().take(60).map(|e| e.kind_char()).collect();
     let detail = || json!({"xml_head": head(&xml), "xml_len": xml.len(), "elements": m.elements.len(), "order": order, "reader": format!("{:?}", plan)});
@@ -426,4 +429,58 @@ fn foreign(ctx: &mut Ctx) {
         }
     }
     let _ = (hex(&[]), Tier::Quick);
+}
+
+
+//------------ short writes ---------------------------------------------------
+
+/// An `io::Write` that takes at most `max` bytes per call.
+struct ShortSink {
+    out: Vec<u8>,
+    max: usize,
+}
+
+impl std::io::Write for ShortSink {
+    fn write(&mut self, buf: &[u8]) -> std::io::Result<usize> {
+        let n = buf.len().min(self.max);
+        self.out.extend_from_slice(&buf[..n]);
+        Ok(n)
+    }
+    fn flush(&mut self) -> std::io::Result<()> {
+        Ok(())
+    }
+}
+
+/// The same file written into a sink that accepts only a few bytes per call:
+/// if the writer reports success, exactly the same bytes must have arrived.
+/// (An error is the writer's right, e.g. the Base64 encoder refuses short
+/// writes; it is only counted.)
+fn short_sink_check(
+    ctx: &mut Ctx,
+    rng: &mut Rng,
+    kind: &str,
+    xml: &[u8],
+    write: impl Fn(&mut ShortSink) -> Result<(), std::io::Error>,
+) {
+    if xml.len() > 200_000 || !rng.chance(1, 3) {
+        return;
+    }
+    let max = *rng.pick(&[1usize, 3, 16, 61]);
+    let mut sink = ShortSink { out: Vec::new(), max };
+    ctx.eval();
+    match write(&mut sink) {
+        Ok(()) => {
+            ctx.obs("short_sink_write_ok", 1);
+            ctx.sig(&format!("short-sink write {} max={}", kind, max));
+            if sink.out != xml {
+                let at = sink.out.iter().zip(xml.iter()).position(|(a, b)| a != b).unwrap_or(sink.out.len().min(xml.len()));
+                ctx.violation(
+                    &format!("C09:roundtrip:{}:short-writes-change-output", kind),
+                    &format!("write_xml into a sink accepting {} bytes per call reported success but {} bytes arrived instead of {} (first difference at {})", max, sink.out.len(), xml.len(), at),
+                    json!({"max_per_call": max, "expected_prefix": String::from_utf8_lossy(&xml[..xml.len().min(300)]), "got_prefix": String::from_utf8_lossy(&sink.out[..sink.out.len().min(300)])}),
+                );
+            }
+        }
+        Err(_) => ctx.obs("short_sink_write_error", 1),
+    }
 }
